@@ -158,6 +158,42 @@ Section UFC.
   Qed.
 End UFC.
 
+(* ------------------------------------------------------------------ the per-case hypothesis checker *)
+
+Lemma hyps6_b_sound (c : case) hs :
+  hyps6_b c hs = true ->
+  DiffOk (lookup_diff (c_diffs c)) /\ LabelsOk (c_labels c)
+  /\ WfHunks (nsides (case_simplified c)) hs /\ Dominated (N.to_nat (c_len c)) hs.
+Proof.
+  unfold hyps6_b. intros H.
+  apply andb_prop in H. destruct H as [H H4]. apply andb_prop in H. destruct H as [H H3].
+  apply andb_prop in H. destruct H as [H1 H2].
+  split; [apply lookup_diff_ok; exact H4|]. split; [apply labels_okb_sound; exact H3|].
+  split; [apply wf_hunksb_sound; exact H1|apply hunks_dominatedb_sound; exact H2].
+Qed.
+
+(** When the checker accepts the real merge result of a case, the model returns the input ids
+    on the model's materialization: the instance of [unchanged_conflict] for that case. *)
+Theorem case_unchanged_sound (c : case) hs :
+  c_mh c = inr hs -> hyps6_b c hs = true ->
+  update_from_content (case_MH c) (case_ids c) (materialize_of c hs) (N.to_nat (c_len c))
+  = case_ids c.
+Proof.
+  intros Hm H. destruct (hyps6_b_sound c hs H) as [HD [Hl [Hw Hd]]].
+  apply unchanged_conflict; try assumption. apply detect_eol_ok.
+Qed.
+
+Theorem case_edit_sound (c : case) hs hs' :
+  c_mh c = inr hs -> hyps6_b c hs' = true -> hs <> hs' ->
+  update_from_content (case_MH c) (case_ids c) (materialize_of c hs') (N.to_nat (c_len c))
+  = write_back (case_ids c) hs'.
+Proof.
+  intros Hm H Hne. destruct (hyps6_b_sound c hs' H) as [HD [Hl [Hw Hd]]].
+  apply edited_written_back; try assumption.
+  - apply detect_eol_ok.
+  - intros old Ho. unfold old_merge, case_MH in Ho. rewrite Hm in Ho. injection Ho as <-. exact Hne.
+Qed.
+
 (* ------------------------------------------------------------------ what write_back writes *)
 
 (** The bytes hunk [h] contributes to side [j]. *)
